@@ -519,10 +519,43 @@ def parse_sortmol(status, toks):
     return {"ok": out, "warn": w}
 
 
+class OrderedSet(set):
+    """a real `set` (every method of the set API works: `remove`, `discard`, `add`, `-`, `|`, `in`, `len` …) whose
+    ITERATION order is imposed; elements added later come after the imposed ones.  (A list was used here before: it
+    supports `in` / `remove` / iteration only, so a `discard` in `sort_molecules` — a strict refactor — raised
+    AttributeError inside the harness: benign change C20-1.)"""
+
+    def __init__(self, order):
+        super().__init__(order)
+        self._order = list(order)
+
+    def __iter__(self):
+        seen = set()
+        for x in self._order:
+            if set.__contains__(self, x) and x not in seen:
+                seen.add(x)
+                yield x
+        for x in sorted(set.__iter__(self), key=repr):
+            if x not in seen:
+                yield x
+
+    def copy(self):
+        return OrderedSet(list(self))
+
+    def pop(self):
+        for x in self:
+            set.remove(self, x)
+            return x
+        raise KeyError("pop from an empty set")
+
+    def __reduce__(self):
+        return (OrderedSet, (list(self),))
+
+
 @contextlib.contextmanager
 def ordered_sets(order_seed, fixed=None):
     """make the two sets `sort_molecules` iterates come out in a chosen order: `classify_files` is wrapped to
-    return list objects (`in`, `remove`, iteration — all `sort_molecules` uses) in that order"""
+    return set objects whose iteration order is imposed (`OrderedSet`)"""
     import gaddlemaps._cli as cli
     orig = cli.classify_files
     seen = {}
@@ -538,7 +571,7 @@ def ordered_sets(order_seed, fixed=None):
             r.shuffle(to)
             r.shuffle(co)
         seen["tops"], seen["coords"] = list(to), list(co)
-        return list(to), list(co)
+        return OrderedSet(to), OrderedSet(co)
     cli.classify_files = fake
     try:
         yield seen
